@@ -107,6 +107,8 @@ def py_parser_skeleton(fname):
             continue
         if cur is None:
             continue
+        for pp_ in re.finditer(r"self\.precpred\(self\._ctx, (\d+)\)", line):
+            out[cur].append(("precpred", int(pp_.group(1))))
         for mm in re.finditer(r"self\.state = (\d+)|self\.match\(blackbirdParser\.(\w+)\)|self\.(\w+)\((\d*)\)|adaptivePredict\(self\._input,(\d+),", line):
             if mm.group(1):
                 out[cur].append(("state", int(mm.group(1))))
@@ -134,6 +136,8 @@ def cpp_parser_skeleton(fname):
             continue
         if cur is None:
             continue
+        for pp_ in re.finditer(r"precpred\(_ctx, (\d+)\)", line):
+            out[cur].append(("precpred", int(pp_.group(1))))
         for mm in re.finditer(r"setState\((\d+)\)|match\(blackbirdParser::(\w+)\)|(?<![\w:.>])(\w+)\((\d*)\);|adaptivePredict\(_input, (\d+),", line):
             if mm.group(1):
                 out[cur].append(("state", int(mm.group(1))))
